@@ -565,6 +565,13 @@ def gen_C07(g, tier):
                         lines.append(f"{c} show {op} {v_}")
                     lines.append(f"{c} show stocomp {v_}")
                     lines.append(f"{c} show storevcomp {v_}")
+        # owned values whose bit vector starts mid-word (From<&BitSlice>): copying forms, clones
+        for off in ((1, 37, 63) if tier == "quick" else range(1, 64, 3)):
+            t = g.text(c, r.choice([1, per_ - 1, per_ + 2, 2 * per_ + 1]))
+            for op in ops_v:
+                lines.append(f"{c} show {op} frombits {off} p str {hx(t)}")
+            lines.append(f"{c} show clone frombits {off} p str {hx(t)}")
+            lines.append(f"{c} show torev clone frombits {off} p str {hx(t)}")
         # content stored under alternative codes (raw constructors): every form, owned and on offset windows, once and twice
         if alt_codes(g, c):
             for n in sorted({1, 2, per_ - 1, per_, per_ + 1, 2 * per_ + 1}):
@@ -1395,6 +1402,13 @@ def gen_C20(g, tier):
             v, n = rand_value(g, c, r.randrange(1, 5), 120)
             for op in ("mask", "unmask", "tomask", "tounmask"):
                 lines.append(f"{c} show {op} {v}")
+        # owned values whose bit vector starts mid-word (From<&BitSlice>): the copying forms copy the content, not the words
+        for off in ((1, 37, 63) if tier == "quick" else range(1, 64, 3)):
+            t = g.text(c, r.choice([1, per - 1, per + 2, 2 * per + 1]))
+            for op in ("tomask", "tounmask", "mask", "unmask"):
+                lines.append(f"{c} show {op} frombits {off} p str {hx(t)}")
+            lines.append(f"{c} show tounmask tomask frombits {off} p str {hx(t)}")
+            lines.append(f"{c} show clone frombits {off} p str {hx(t)}")
         # content stored under alternative codes (raw constructors / set operations): in-place and copying forms agree
         if alt_codes(g, c):
             for n in sorted({1, 2, per - 1, per, per + 1, 2 * per + 1}):
